@@ -202,6 +202,9 @@ def run(ctx):
                 a = strip(a)
                 if a[0] == "proj" and strip(a[1])[0] in ("var", "arg") and "Options" in body.local_ty(strip(a[1])[1]):
                     continue          # a field of the parsed options
+                opt_fields = {f_["name"] for ad in prog.adts.values() if ad["path"].endswith("::Options") for v_ in ad["variants"] for f_ in v_["fields"]}
+                if a[0] == "proj" and a[2] and a[2][-1].lstrip(".") in opt_fields and not any(x[0] in ("bin", "un") for x in walk(a)):
+                    continue          # the same field, read from the value an argument-parsing helper returns (no operator on the way)
                 if a[0] == "k":
                     bad_args.append("argument %d is the constant %s" % (ai, a[1]))
                 elif a[0] == "var":
@@ -209,8 +212,11 @@ def run(ctx):
                     for d in body.defs().get(a[1], []):
                         vals.append(show(strip(eb0.rvalue(d[3]["rv"])))[:60] if d[0] == "st" else show(strip(eb0.call_node(d[2], d[1])))[:60])
                     bad_args.append("argument %d is the local `%s`, assigned %s" % (ai, a[2], " / ".join(vals)))
+                elif any(x[0] in ("bin", "un") for x in walk(a)):
+                    bad_args.append("argument %d is computed: %s" % (ai, show(a)[:80]))
                 else:
-                    bad_args.append("argument %d is %s" % (ai, show(a)[:80]))
+                    raise AnalysisError("cli_main: argument %d of collect_hulc_data is %s - neither a field of the parsed Options nor a constant or computed value this rule can judge"
+                                        % (ai, show(a)[:100]))
             if bad_args:
                 ctx.violation("c01.provenance", "c01.provenance|cli_main|options", "collect_hulc_data is not called with the options as parsed from the command line: %s "
                               "(the exported model can differ from the library conversion for the same directory and option)" % "; ".join(bad_args), fn.loc(t.get("ln")))
@@ -274,34 +280,79 @@ def run(ctx):
     for callee in ("find_ctehexml", "ok_or_else", "parse_with_catalog_from_path", "try_from"):
         check_propagated(ctx, chd, callee, "c01.propagate|collect_hulc_data|%s" % callee)
 
-    # D4: thor
+    # D4: thor.  The write may sit in a helper (`save_if_requested(&matches, "archivo_salida_json", .., &json, ..)`): every writefile call of the binary is
+    # expressed in terms of main's values by binding helper parameters to the arguments of the helpers' call sites, and the content's data flow is followed
+    # through the binary's own functions (load_model, json_or_exit, ...)
     thor = [f for f in prog.fns.values() if f.path == "thor::main"]
     ctx.require(len(thor) == 1, "anchor thor::main not found")
     thor = thor[0]
-    tb = thor.body
-    eb = ExprBuilder(tb)
-    found = False
-    for b, t2 in tb.calls():
-        nm = callee_name(t2) or ""
-        if nm.endswith("thor::writefile"):
-            # guard: dominated by contains_id("archivo_salida_json") ?
-            path = eb.operand(t2["args"][0])
-            content = eb.operand(t2["args"][1])
-            pstr = [n[1] for n in walk(path) if n[0] == "s"]
-            if "archivo_salida_json" not in pstr:
+    from ..cfgq import bind_args
+    from ..mir import callee_id
+    tfns = [f for f in prog.fns.values() if f.path.startswith("thor::") and f.root == f.id]
+    byid = {f.id: f for f in tfns}
+
+    def call_sites_of(target):
+        out = []
+        for g in tfns:
+            for g_ in [g] + prog.closures_of(g):
+                eb_ = None
+                for b_, t_ in g_.body.calls():
+                    if callee_id(t_) == target.id:
+                        eb_ = eb_ or ExprBuilder(g_.body)
+                        out.append((g_, t_, {i_ + 1: strip(eb_.operand(a_)) for i_, a_ in enumerate(t_["args"])}))
+        return out
+    wfn = [f for f in tfns if f.path == "thor::writefile"]
+    ctx.require(len(wfn) == 1, "anchor thor::writefile not found")
+    sites = []           # (fn, path node, content node, line)
+    work = []
+    for g_, t_, am in call_sites_of(wfn[0]):
+        work.append((g_, am[1], am[2], t_.get("ln"), 0))
+    while work:
+        g_, pn, cn, ln_, d_ = work.pop()
+        root_g = prog.root_of(g_)
+        has_args = any(x[0] == "arg" for x in walk(pn)) or any(x[0] == "arg" for x in walk(cn))
+        if root_g.id == thor.id or not has_args or d_ > 4:
+            sites.append((g_, pn, cn, ln_))
+            continue
+        callers = call_sites_of(root_g)
+        if not callers:
+            sites.append((g_, pn, cn, ln_))
+        for g2, t2, am in callers:
+            work.append((g2, bind_args(pn, am), bind_args(cn, am), t2.get("ln"), d_ + 1))
+
+    def flow_names(node, depth=0):
+        """names of the calls the value flows through, following the binary's own functions into their returned values"""
+        names = set()
+        for x in walk(node):
+            if x[0] != "call":
                 continue
-            found = True
-            calls = [short_callee(n[1]) for n in walk(content) if n[0] == "call"]
-            names = [n[1] for n in walk(content) if n[0] == "call"]
-            okp = (any(n.endswith("Model::as_json") for n in names) and any("TryFrom<&hulc::ctehexml::CtehexmlData>" in n for n in names)
-                   and any(n.endswith("parse_with_catalog_from_path") for n in names)
-                   and not any(n.endswith("energy_indicators") for n in names))
-            if okp:
-                ctx.ok("c01.thor", "c01.thor|writefile", "-o content = as_json(Model::try_from(&parse_with_catalog_from_path(..)))", thor.loc(t2.get("ln")))
-            else:
-                ctx.violation("c01.thor", "c01.thor|writefile", "-o content is %s" % show(content)[:200], thor.loc(t2.get("ln")))
+            names.add(x[1])
+            ids_ = [i_ for i_ in prog.callee_index().get(x[1], ()) if i_ in byid]
+            if len(ids_) == 1 and depth < 4:
+                h = byid[ids_[0]]
+                heb = ExprBuilder(h.body)
+                am = {i_ + 1: a_ for i_, a_ in enumerate(x[2])}
+                from ..cfgq import returned_nodes as _rn
+                for _, rn_ in _rn(h.body, heb):
+                    names |= flow_names(bind_args(strip(rn_), am), depth + 1)
+        return names
+    found = False
+    for g_, pn, cn, ln_ in sites:
+        pstr = [n[1] for n in walk(pn) if n[0] == "s"]
+        if "archivo_salida_json" not in pstr:
+            continue
+        found = True
+        names = flow_names(cn)
+        okp = (any(n.endswith("Model::as_json") for n in names) and any("TryFrom<&hulc::ctehexml::CtehexmlData>" in n for n in names)
+               and any(n.endswith("parse_with_catalog_from_path") for n in names)
+               and not any(n.endswith("energy_indicators") for n in names))
+        if okp:
+            ctx.ok("c01.thor", "c01.thor|writefile", "-o content = as_json(Model::try_from(&parse_with_catalog_from_path(..)))", g_.loc(ln_))
+        else:
+            ctx.violation("c01.thor", "c01.thor|writefile", "-o content is %s (flows through %s)" % (show(cn)[:160], sorted(n.split("::")[-1] for n in names)[:8]), g_.loc(ln_))
     if not found:
-        ctx.violation("c01.thor", "c01.thor|writefile", "no writefile(<archivo_salida_json>, ..) call found in thor::main", thor.loc())
+        ctx.violation("c01.thor", "c01.thor|writefile", "no writefile(<archivo_salida_json>, ..) call found in the thor binary (write sites: %s)"
+                      % [show(pn)[:60] for _, pn, _, _ in sites][:4], thor.loc())
     # the file named with -o holds that JSON and nothing else: created or truncated, and written completely
     wf = [f for f in prog.fns.values() if f.path == "thor::writefile"]
     ctx.require(len(wf) == 1, "anchor thor::writefile not found")
@@ -337,11 +388,16 @@ def run(ctx):
                       % [short_callee(n) for n, _ in wr], wf.loc())
     # same conversion pair as collect_hulc_data
     def convpair(f):
+        """the conversion functions called by f or by the functions of its own crate it reaches"""
         s = set()
-        for b, t2 in f.body.calls():
-            nm = callee_name(t2) or ""
-            if nm.endswith("parse_with_catalog_from_path") or "TryFrom<&hulc::ctehexml::CtehexmlData>" in nm:
-                s.add(nm)
+        for fid in ctx.cg.reachable([f.id]):
+            g = prog.fns[fid]
+            if g.crate != f.crate:
+                continue
+            for b, t2 in g.body.calls():
+                nm = callee_name(t2) or ""
+                if nm.endswith("parse_with_catalog_from_path") or "TryFrom<&hulc::ctehexml::CtehexmlData>" in nm:
+                    s.add(nm)
         return s
     if convpair(thor) == convpair(chd) and len(convpair(chd)) == 2:
         ctx.ok("c01.thor", "c01.thor|pair", "thor and collect_hulc_data call the same conversion pair", thor.loc())
